@@ -63,7 +63,7 @@ func buildTarGz(es []UEntry) []byte {
 			h.Size = int64(len(e.Body))
 		}
 		if e.Typ == tar.TypeXGlobalHeader {
-			h.Name = ""
+			// the record's own name is kept (tar writes it; Unpack sees it as the entry name)
 			h.ModTime = time.Time{}
 			h.Mode = 0
 			h.PAXRecords = map[string]string{"comment": "x"}
@@ -639,7 +639,10 @@ func unpackSignature(c *UCase, what string) string {
 // ---------- generators ----------
 
 var uNames = []string{"a", "b", "d/a", "d/b", "d/e/f", "l", "l/x", "d/l", "d/l/y", "./a", "/a", "/d/b", "a/../b", "n/../d/l/k",
-	"../dst-evil/x", "../outside.txt", "../dstx/y", "d", "e", "d/e", "l2", "d/l2", "é", "a b", "d//a", "..", "../..", ".", "d/../../dst-evil/z", "k", "d/k", "/", "//", "//a", "///d/b", "./", "a/", "./.", "..data", "...", "d/..x", "..data/y"}
+	"../dst-evil/x", "../outside.txt", "../dstx/y", "d", "e", "d/e", "l2", "d/l2", "é", "a b", "d//a", "..", "../..", ".", "d/../../dst-evil/z", "k", "d/k", "/", "//", "//a", "///d/b", "./", "a/", "./.", "..data", "...", "d/..x", "..data/y",
+	// names whose parent directories do not exist yet, outside dst (seed C01-e: only a refused entry
+	// keeps MkdirAll from planting directories there)
+	"../planted/deep/h", "d/../../sibling/a/b/h", "/../planted2/x/y"}
 var uTargets = []string{"a", "b", "d", "d/a", ".", "..", "../dst-evil", "../..", "@ARENA@/etcx/passwd", "d/..", "d/../..", "l", "d/l", "d/l/..", "l/..", "l/../outside.txt",
 	"../dst/a", "../dstx", "nonexist", "e/../..", "../a", "../d/a", "../../dst-evil/x", "", "./a", "d/./a", "l2", "../l", "k", "../k"}
 
@@ -667,6 +670,9 @@ func genEntry(r *Rng, arena string, i int) UEntry {
 		e.Mode = 0777
 	case x < 95:
 		e.Typ = tar.TypeXGlobalHeader
+		if r.Chance(40) {
+			e.Name = r.Pick([]string{"../planted/deep/pax_global_header", "d/../../sibling/a/b/pax_global_header", "pax_global_header", "d/new/pax_global_header"})
+		}
 	case x < 96:
 		e.Typ = tar.TypeRegA
 		e.Body = "old"
@@ -723,7 +729,7 @@ func genUCase(r *Rng, arena string) *UCase {
 		c.Entries = append(c.Entries, genEntry(r, arena, i))
 	}
 	if r.Chance(8) {
-		c.Allow = []string{r.Pick([]string{"../dst-evil", arena + "/p/q/dstx", arena + "/etcx", "../outside.txt",
+		c.Allow = []string{r.Pick([]string{"../dst-evil", arena + "/p/q/dstx", arena + "/etcx", "../outside.txt", "",
 			// entries that are a string prefix, but not a component prefix, of a decoy (seed C04-d)
 			"../dst-ev", "../outside", arena + "/p/q/dst-ev", "../dst-evil/"})}
 	}
